@@ -11,7 +11,7 @@ META = {
     "level": "fault_enumeration",
     "text": "Crash-point enumeration on real code: one directory snapshot before each file-system call of each replacing operation "
             "(every prefix of the call sequence), judged on real bytes, plus TLC validation of the traces against FSTrace.tla "
-            "(Atomic, HiddenOnlyNow). Font / certificate publication crash points are covered by the C06 harness.",
+            "(Atomic, HiddenOnlyNow). Font / certificate publication crash points come from the txn harness (known finding F2).",
     "note": "Trusted: instrumented os package, snapshot classifier, FSTrace.tla. Process-kill model (page cache survives); a kill inside a "
             "single write(2) is represented by the monitor's torn-write rule, not by a real partial write.",
     "technique": "crash-point enumeration via os-call snapshots on real code + TLC trace validation against a TLA+ file-system monitor",
@@ -21,6 +21,13 @@ META = {
 
 def run(ctx):
     rows, summ, st, sample = fsfamily.run_mode(ctx, "c02")
+    # font / certificate publication (harness/cmd/txn): crash points of the batch installers
+    rows2, summ2, st2, sample2 = fsfamily.run_mode(ctx, "c02", binary="txn")
+    rows = rows + rows2
+    summ["crash_points"] += summ2["crash_points"]
+    summ["skipped"] = summ.get("skipped", []) + summ2.get("skipped", [])
+    for k in ("states", "transitions", "traces", "drift"):
+        st[k] += st2[k]
     ev = ctx.ev
     ev.cov(evaluations=summ["crash_points"], distinct_nontrivial=summ["crash_points"],
            rule="one evaluation = one crash point = the real directory state before the k-th file-system call of a replacing operation; "
